@@ -221,7 +221,7 @@ def arithAdd (x y : Expr) : Outcome Expr :=
 
 def arithSub (x y : Expr) : Outcome Expr :=
   match x with
-  | .leaf .none => .ok y                       -- `None - y = y`, as written
+  | .leaf .none => arithNeg y                  -- nothing less `y` is `-y`
   | .leaf (.number _) => do let ny ← arithNeg y; arithAdd x ny
   | .node .assets _ => do let ny ← arithNeg y; arithAdd x ny
   | _ => errBin "sub"
